@@ -42,8 +42,23 @@ pub fn case_real(rd: &mut Rd) -> R<String> {
     let ip: IpAddr = if v6 { IpAddr::V6(Ipv6Addr::LOCALHOST) } else { IpAddr::V4(Ipv4Addr::LOCALHOST) };
     let stop = Arc::new(AtomicBool::new(false));
     let seen: Arc<Mutex<Vec<Vec<u8>>>> = Arc::new(Mutex::new(Vec::new()));
-    let tcp = kind == 2 || kind == 4;
-    let (port, handle) = if after == 2 {
+    let tcp = kind == 2 || kind == 4 || kind == 5;
+    // after == 4: a listener that never accepts and whose accept queue is full, so that further SYNs are dropped
+    let mut parked: Vec<std::net::TcpStream> = Vec::new();
+    let mut blackhole: Option<TcpListener> = None;
+    let (port, handle) = if after == 4 {
+        let l = TcpListener::bind(SocketAddr::new(ip, 0)).map_err(|_| ())?;
+        let p = l.local_addr().map_err(|_| ())?.port();
+        let a = SocketAddr::new(ip, p);
+        for _ in 0 .. 6000 {
+            match std::net::TcpStream::connect_timeout(&a, Duration::from_millis(40)) {
+                Ok(c) => parked.push(c),
+                Err(_) => break,
+            }
+        }
+        blackhole = Some(l);
+        (p, None)
+    } else if after == 2 {
         // a port nobody listens on
         let l = TcpListener::bind(SocketAddr::new(ip, 0)).map_err(|_| ())?;
         let p = l.local_addr().map_err(|_| ())?.port();
@@ -139,6 +154,7 @@ pub fn case_real(rd: &mut Rd) -> R<String> {
             1 => show(gamedig::protocols::quake::three::query(&addr, ts), |r| canon(r)),
             2 => show(gamedig::games::minecraft::protocol::query_java(&addr, ts, None), |r| canon(r)),
             3 => show(raw::udp_exchange(&addr, &ts, &payload, size), |r| digest(r)),
+            5 => show(gamedig::games::eco::query_with_timeout(&ip, Some(port), &ts), |_| "response".to_string()),
             _ => show(raw::tcp_exchange(&addr, &ts, &payload), |r| digest(r)),
         }
     }))
@@ -150,8 +166,13 @@ pub fn case_real(rd: &mut Rd) -> R<String> {
     if let Some(h) = handle {
         let _ = h.join();
     }
+    drop(parked);
+    drop(blackhole);
     let seen = seen.lock().unwrap();
-    let saw = if kind == 2 {
+    let saw = if kind == 5 {
+        // the HTTP request text carries the port and the client's version: not compared
+        String::new()
+    } else if kind == 2 {
         // the handshake carries the (dynamic) port: only the amount is comparable
         seen.iter().map(|d| format!("len={}", d.len())).collect::<Vec<_>>().join(",")
     } else if tcp {
